@@ -142,8 +142,12 @@ def uncompactCells (compacted : List (BitVec 64)) (numOut : Int) (res : Int) : O
     | c :: rest =>
       if !hasChildAtRes c res then (some .resMismatch, out)
       else
-        let kids := cellToChildren c res
+        -- enumerate at most room+1 children (the C loop stops at the capacity check)
         let room := (numOut - out.size).toNat
+        let fuel := match cellToChildrenSize c res with
+          | .ok n => min n.toNat (room + 1)
+          | .error _ => 0
+        let kids := childrenFuel (iterInitParent c res) fuel
         if kids.length > room then (some .memoryBounds, out ++ (kids.take room).toArray)
         else go rest (out ++ kids.toArray)
   go compacted #[]
